@@ -600,6 +600,11 @@ def suite_trsm(g, n, big=False):
             # at the last word) with a partial last word; enough rows for the table-based paths
             w = 512 * rng.randint(1, 2) - rng.randint(0, 63)
             nn = rng.choice([65, 100, 130, 200, 257])
+        if big and op in ('trsm_ll', 'trsm_ul') and rng.random() < 0.08:
+            # two recursion levels of the left variants in the small-cache builds: the balanced split point exceeds the
+            # block size
+            nn = rng.randint(640, 1100)
+            w = rng.choice([1, 30, 64, 65, 130])
         if op in ('trsm_ur', 'trsm_lr'):
             # the column-wise substitution form of the model costs rows * n^2 bit operations; every regime of the right
             # variants is entered below 400 columns in the small-cache builds
